@@ -130,6 +130,14 @@ add("C05", "stateful property-based testing of whole VOGP / eps-PAL runs under a
     "another member by more than the slack.",
     "Premise-failing or step-capped runs excluded and counted; band 1e-9*scale.", "DESIGN.md section 2 and section 3 C05")
 
+add("C07", "Hypothesis generated acquisition value tables for the two discrete optimisers; stateful testing of every evaluation of generated runs against harness-recomputed acquisition values and a recording proxy",
+    "(i) optimize_acqf_discrete / optimize_decoupled_acqf_discrete on table-backed acquisitions with ties, duplicates, costs and q up to beyond the table size: distinct rows, "
+    "non-increasing values, multiset = top-q, values/objective indices belong to the returned rows, evaluation index restored; (ii) for all nine algorithms each step's queries "
+    "(from the proxy on problem.evaluate) must be active designs maximising the acquisition recomputed on the state the code used, batches distinct and non-increasing, and the "
+    "model's data after the step must be its data before plus exactly the logged (x, y, objective) triples in order.",
+    "Near-ties at 1e-9 relative accept either choice; Thompson acquisition checked against the tables it actually returned (recording subclass bound at the name the algorithm imports).",
+    "DESIGN.md section 3 C07")
+
 PENDING = {}
 
 
